@@ -84,7 +84,7 @@ func confFor(nk, limit int) *config.Config {
 	o.NKDC, o.UDPLimit = nk, limit
 	cfg, err := config.NewFromString(cworld.ConfText(o))
 	if err != nil {
-		engine.Fatal("config: %v", err)
+		engine.FailValid("config.NewFromString(valid configuration)", err)
 	}
 	return cfg
 }
@@ -159,7 +159,7 @@ func Run(c *engine.Ctx) {
 	w := cworld.New(cworld.DefaultOpts())
 	asReq, err := messages.NewASReqForTGT(cworld.Realm, w.Config, w.Client.Credentials.CName())
 	if err != nil {
-		engine.Fatal("as-req: %v", err)
+		engine.FailValid("messages.NewASReqForTGT", err)
 	}
 	req, _ := asReq.Marshal()
 	var evals int64
